@@ -20,6 +20,9 @@ class UnitsParser(object):
         self.debug = debug
 
     def isnumber(self, what):
+        if what.isalpha():
+            # 'inf', 'nan', 'infinity' are accepted by float() but are names
+            return False
         try:
             float(what)
             return True
